@@ -11,8 +11,8 @@ import math
 from typing import Any, Optional, SupportsInt, Union
 
 from elementpath.aliases import XPath2ParserType
-from elementpath.helpers import FloatArgType, NUMERIC_INF_OR_NAN, INVALID_NUMERIC, \
-    LazyPattern, collapse_white_spaces
+from elementpath.helpers import FloatArgType, NUMERIC_INF_OR_NAN, \
+    LazyPattern, Patterns, collapse_white_spaces
 from .any_types import AnyAtomicType
 from .untyped import UntypedAtomic
 
@@ -51,7 +51,7 @@ class Float(float, AnyAtomicType):
                         return float_nan
                     except NameError:
                         pass
-            elif value.lower() in INVALID_NUMERIC:
+            elif Patterns.numeric_literal.match(value) is None:
                 raise cls._invalid_value(value)
         elif math.isnan(value):
             try:
